@@ -187,6 +187,13 @@ Reparse ==
   /\ Chk("C08_SameIndent", ~E.ok \/ KXR(E.toks) # KXR(toks) \/ E.ind1 = E.ind2)
   /\ Same
 
+\* C08, second sentence: what the --fix run reports at its end is what a fresh check of the written file reports
+FreshCheck ==
+  /\ E.e = "FreshCheck"
+  /\ Chk("C08_FreshCheckRuns", E.ok)
+  /\ Chk("C08_ReportIsFreshReport", ~E.ok \/ Range(E.vfix) = Range(E.vfresh))
+  /\ Same
+
 Probe ==
   /\ E.e = "Probe"
   /\ Chk("C10_RefixNoCrash", E.crash = "")
@@ -210,7 +217,7 @@ Machinery ==
   /\ Same
 
 Other ==
-  /\ E.e \in {"CheckBegin", "CheckEnd", "Round", "Rejected"}
+  /\ E.e \in {"CheckBegin", "CheckEnd", "CheckViol", "Round", "Rejected"}
   /\ Same
 
 \* C09: texts[k] = (interned) text of the file after the k-th --fix of the same file under the same configuration
@@ -227,7 +234,7 @@ End ==
   /\ Same
 
 Next == /\ l <= Len(Traces[tid].ev)
-        /\ (Parse \/ FixStep \/ SetIndentStep \/ IdxStep \/ AnalyzeStep \/ NormStep \/ FixBegin \/ FixEnd \/ Reparse \/ Probe \/ Crash \/ Hang \/ Machinery \/ Other \/ End)
+        /\ (Parse \/ FixStep \/ SetIndentStep \/ IdxStep \/ AnalyzeStep \/ NormStep \/ FixBegin \/ FixEnd \/ Reparse \/ FreshCheck \/ Probe \/ Crash \/ Hang \/ Machinery \/ Other \/ End)
         /\ l' = l + 1 /\ tid' = tid
 
 Spec == Init /\ [][Next]_vars
